@@ -11,11 +11,13 @@ TexSoupModel/ArgsDriver.lean:
     op   ::= a:<item> | e:<item>,.. | i:<int>:<item> | r:<item> | p:<int> | p | v | c
              | g:<int> | s:<lo>:<hi> | t          (bounds: int or `_`)
              | x:<lo>:<hi>      target.extend(target[lo:hi])    - extend by a TexArgs object
+             | X                target.extend(target)           - extend by the list itself
              | y                target.extend(other)            - `other` = the args of a second command
              | o:<op>           <op> with the roles of target and other swapped (o:y = other.extend(target))
 
-(`target.extend(target)` itself is not an operation: on a non-empty TexArgs it does not
-terminate - the implementation loops over the list it is growing, where a Python list doubles.)
+(`X` used not to terminate on a non-empty TexArgs - the implementation looped over the list it was
+growing, where a Python list doubles; fixed as F20. Every operation on the implementation runs under
+common.time_limit: a hang is the answer `HANG`, which no model answer equals, and ends the history.)
 
 Canonical answer: `<out> @ lst=..|all=..` per operation, joined by `;` (see ArgsDriver.lean);
 histories that use `other` (`y`, `o:..`) append ` & lst=..|all=..` of `other` to every state.
@@ -120,11 +122,16 @@ def _apply(target, op, slice_state, shared=None, other=None):
             lo, _, hi = rest.partition(':')
             target.extend(target[_bound(lo):_bound(hi)])
             return 'none'
+        if k == 'X':
+            target.extend(list(target.l) if isinstance(target, RefList) else target)
+            return 'none'
         if k == 'y' and other is not None:
             target.extend(other)
             return 'none'
     except ERRS as e:
         return type(e).__name__
+    except common.ImplHang:
+        raise
     except Exception as e:                          # anything else is a disagreement by itself
         return 'EXC:' + type(e).__name__
     raise ValueError('bad op ' + op)
@@ -136,16 +143,35 @@ def uses_other(ops):
     return any(op == 'y' or op.startswith('o:') for op in ops)
 
 
-def _run(ops, target, other, slice_state, state, extra):
-    """Common loop of impl_run / ref_run over `target` and `other`."""
+#: per process: set once an operation on the implementation did not return; from then on `X` on a
+#: non-empty TexArgs is not attempted again (answer `HANG`), so that a looping `extend` costs one time
+#: limit per worker, not one per history
+HANG_SEEN = [False]
+OP_TIME_LIMIT = min(common.IMPL_TIME_LIMIT, 5)
+
+
+def _run(ops, target, other, slice_state, state, extra, watched=False):
+    """Common loop of impl_run / ref_run over `target` and `other`. With `watched` every operation
+    runs under common.time_limit; a hang is the answer `HANG` and ends the history."""
     two = uses_other(ops)
     res = []
     shared = {}
     for op in ops:
-        if op.startswith('o:'):
-            out = _apply(other, op[2:], slice_state, shared, target)
+        me, you, op1 = (other, target, op[2:]) if op.startswith('o:') else (target, other, op)
+        if not watched:
+            out = _apply(me, op1, slice_state, shared, you)
+        elif HANG_SEEN[0] and op1 == 'X' and len(me) > 0:
+            out = 'HANG'
         else:
-            out = _apply(target, op, slice_state, shared, other)
+            try:
+                with common.time_limit(OP_TIME_LIMIT):
+                    out = _apply(me, op1, slice_state, shared, you)
+            except common.ImplHang:
+                HANG_SEEN[0] = True
+                out = 'HANG'
+        if out == 'HANG':                            # the lists are in no defined state any more
+            res.append('HANG')
+            break
         line = out + ' @ ' + state(target)
         if two:
             line += ' & ' + state(other)
@@ -174,7 +200,7 @@ def impl_run(ops):
             str(owner2) == '\\q' + ''.join(str(x) for x in list.__iter__(other))
         return '' if ok else ' OWNER-MISMATCH'
 
-    return _run(ops, args, other, slice_state, lambda a: _state(a, a.all), extra)
+    return _run(ops, args, other, slice_state, lambda a: _state(a, a.all), extra, watched=True)
 
 
 # ----------------------------------------------------------------------------- list reference
@@ -273,7 +299,7 @@ def ops_at(n, pool):
     ops += ['i:%d:%s' % (i, it) for i in idx for it in pool]
     ops += ['r:' + it for it in pool]
     ops += ['p'] + ['p:%d' % i for i in idx]
-    ops += ['v', 'c', 't']
+    ops += ['v', 'c', 't', 'X']
     ops += ['g:%d' % i for i in idx]
     ops += ['s:%s:%s' % (lo, hi) for lo in bounds for hi in bounds]
     ops += ['e:', 'e:' + ','.join(pool[:2]), 'e:' + ','.join([pool[0], pool[-1], pool[2]])]
@@ -352,7 +378,7 @@ def ops_side_at(n, pool):
     ops += ['g:%d' % i for i in idx]
     ops += ['s:%s:%s' % (lo, hi) for lo in bounds for hi in bounds]
     ops += ['x:%s:%s' % (lo, hi) for lo in bounds for hi in bounds]
-    ops += ['e:' + ','.join(pool[:2])]
+    ops += ['X', 'e:' + ','.join(pool[:2])]
     return ops
 
 
@@ -404,7 +430,7 @@ def random_history(rng, maxlen, items=None):
         n = ns[side]
         it = rng.choice(items)
         i = rng.randint(-(n + 3), n + 3)
-        k = rng.choice('aaaiiiirrppvcgsteexxyy')
+        k = rng.choice('aaaiiiirrppvcgsteexxyyXX')
         b = lambda: '_' if rng.random() < 0.3 else str(rng.randint(-(n + 3), n + 3))   # noqa: E731
         if k == 'a':
             op = 'a:' + it; n += 1
@@ -419,7 +445,9 @@ def random_history(rng, maxlen, items=None):
         elif k == 's':
             op = 's:%s:%s' % (b(), b())
         elif k == 'x':
-            op = 'x:%s:%s' % (b(), b()); n = min(2 * n, 12)
+            op = 'x:%s:%s' % (b(), b()); n = min(2 * n, 13)
+        elif k == 'X':
+            op = 'X'; n = min(2 * n, 13)
         elif k == 'y':
             op = 'y'; n = min(n + ns[1 - side], 12)
         elif k == 'e':
@@ -429,7 +457,7 @@ def random_history(rng, maxlen, items=None):
             op = k
             if k == 'c':
                 n = 0
-        if n > 12 and k in 'xy':                     # keep the lists from doubling for ever
+        if n > 12 and k in 'xyX':                    # keep the lists from doubling for ever
             op, n = 'c', 0
         ns[side] = n
         ops.append('o:' + op if side else op)
